@@ -37,6 +37,10 @@ F_CONC = F_SYM + [
     "A:bs(a, df=3, degree=1)", "bs(scale(a), df=4)", "np.exp(center(a) / 4) + A", "cr(center(b), df=3):A",
     # a stateful transform applied to the multi-column (dict-valued) output of another one: one state per sub-column
     "scale(bs(a, df=4)) + A", "center(cr(b, df=3))", "scale(poly(a, 2)):A",
+    # bounds narrower than the training data, every non-raising extrapolation mode: out-of-bounds rows exist at fit time AND on replay
+    "cr(a, df=4, lower_bound=1, upper_bound=6.5, extrapolation='clip')", "cc(b, df=3, lower_bound=1, upper_bound=6, extrapolation='na') + A",
+    "cr(b, df=3, lower_bound=0.5, upper_bound=6, extrapolation='zero'):A", "bs(a, df=4, lower_bound=1, upper_bound=7, extrapolation='na')",
+    "bs(b, df=3, degree=2, lower_bound=0.5, upper_bound=6.75, extrapolation='zero')", "cr(a, df=3, extrapolation='clip') + cc(b, df=3, extrapolation='clip')",
 ]
 
 A_TRAIN = [0.5, 1.25, 2.0, 3.5, 4.75, 6.0, 7.5]
